@@ -56,6 +56,25 @@ CLAIMED["C20"] = dict(
     note="Trusted in addition: x86-64 SysV layout rules as modelled in Ffi.lean; real memory safety of the unsafe writes beyond the byte-level contract, OS RNG and Instant::now() are outside the model; machines are deterministic so the API's OS-seeded RNG cannot matter.",
 )
 
+CLAIMED["C01"] = dict(
+    text="Proof (Lean 4), for every validated machine set, fractions, oracle and history with arbitrary batches, unknown/huge ids and arbitrary (also backwards) clocks: "
+         "no index is ever out of range, the transition recursion needs at most 6 of its 8 fuel units (CounterZero guard), every reached state is valid; the only fault the "
+         "model can raise is the checked Duration addition of the blocking accounting, shown reachable by a kernel-evaluated witness that panics the real code too (known finding F6). "
+         "Monitor on the implementation: no panic, transition steps per call <= 6(events+1)(machines+1). The work bound itself is checked by the monitor, not yet by a theorem.",
+    ref="5 (C01)",
+    technique="Lean 4: safety induction over the mutually recursive transition/update_counter with a fuel measure + bounded call-level walker; differential correspondence incl. panic class; monitor for the work bound",
+)
+
+CLAIMED["C11"] = dict(
+    text="Proof (Lean 4): bincode round trip dec(enc m ++ r) = (m, r) for every representable machine (floats as raw bits, NaN payloads survive), base64 round trip, "
+         "fromStr(serialize m) = m and identical re-serialisation (hence name) for every valid machine whose encoding fits 1 MiB under the stated zlib contract (a hypothesis, checked "
+         "against the real flate2 path on every run), fromStr never panics and only yields validated machines for every string and every zlib behaviour, the legacy v1 parser never "
+         "indexes out of bounds. Correspondence on valid, hostile, v1 and bomb streams; peak allocation on bombs is measured as supporting evidence only.",
+    ref="6 (C11)",
+    technique="Lean 4 structural round-trip proofs over a bincode/base64/v1-parser model with zlib as a parameter + differential correspondence (valid, mutated, bomb strings)",
+    note="Trusted in addition: zlib (flate2/miniz_oxide) is a parameter with a stated contract, validated on every run; heap use is outside the model (measured only); bincode/serde derive output is modelled and validated on every generated machine.",
+)
+
 PENDING = {}
 
 ALL = [f"C{i:02d}" for i in range(1, 21)]
